@@ -92,7 +92,8 @@ func Check(r *ev.Run, replay string) {
 	partD(r, nD)
 	nE := 3
 	partE(r, nE)
-	r.Set("rule", fmt.Sprintf("every path string with 0..N segments over the 7-segment alphabet x leading/trailing separator; A: ResolvePath x 4 bases (N=%d); B: localfs x 14 operations x 3 bases on a real tree (N=%d; two-path ops: every path in each position against fixed partners + all pairs over short paths); C: VirtualOS x 7 mount tables x 4 cwds x 14 operations with recording filesystems (N=%d); D: every history of <= %d steps over {Stat, Remove, Rename on 4 relative and 1 absolute path, Chdir to 5 directories} on one VirtualOS per mount table, each step judged against the working directory of that moment; E: every history of <= 3 steps over 34 (thorough 48) operations on one based localfs on a real tree (symlinks created at three depths, renames that move links and directories to other depths, reads/writes/removals/listings through the links): nothing outside the base is read or changed. distinct = distinct (part, operation, outcome class, resolved location) tuples", nA, nB, nC, nD))
+	partF(r)
+	r.Set("rule", fmt.Sprintf("every path string with 0..N segments over the 7-segment alphabet x leading/trailing separator; A: ResolvePath x 4 bases (N=%d); B: localfs x 14 operations x 3 bases on a real tree (N=%d; two-path ops: every path in each position against fixed partners + all pairs over short paths); C: VirtualOS x 7 mount tables x 4 cwds x 14 operations with recording filesystems (N=%d); D: every history of <= %d steps over {Stat, Remove, Rename on 4 relative and 1 absolute path, Chdir to 5 directories} on one VirtualOS per mount table, each step judged against the working directory of that moment; E: every history of <= 3 steps over 34 (thorough 48) operations on one based localfs on a real tree (symlinks created at three depths, renames that move links and directories to other depths, reads/writes/removals/listings through the links): nothing outside the base is read or changed; F: VirtualOS.MkdirTemp x 6 mount tables x 6 temporary directories x 9 patterns (refused, or one Mkdir by the mount the temporary directory lies in, at its place inside that mount, under a name without separators, and that path returned). distinct = distinct (part, operation, outcome class, resolved location) tuples", nA, nB, nC, nD))
 }
 
 // ---------------------------------------------------------------- part A
